@@ -16,6 +16,9 @@ struct Run
 	bool warned = false, any_output = false;
 	uint64_t panels = 0;
 };
+// The sanitizer build observes memory and undefined behaviour, not volume: a request that exhausts depth 25 costs 2^27 evaluations (minutes under
+// ASan, seconds otherwise), so that flavour caps the recursion depth of the generated requests at 15.
+static int flavour_depth(int depth) { return ctx().is_asan() ? std::min(depth, 15) : depth; }
 static Run run(const std::function<double(double)>& f, double a, double b, double eps, int depth)
 {
 	Run r;
@@ -86,6 +89,7 @@ static void poly_case(Rng& rng, uint64_t)
 	double eps = rng.loguni(eps_lo, eps_hi) * rng.sign();
 	if(rng.coin(0.1))
 		eps = rng.sign() * 1e2;	  // first acceptance test
+	depth = flavour_depth(depth);
 	set_params(J().vec("coefficients", c).d("a", a).d("b", b).d("epsilon", eps).i("depth", depth));
 	for(double v : c)
 		hash_param(v);
@@ -122,6 +126,7 @@ static void regular_case(Rng& rng, uint64_t)
 	bool swapped = rng.coin(0.3);
 	if(swapped)
 		std::swap(a, b);
+	depth = flavour_depth(depth);
 	set_params(J().str("family", R.name()).d("a", a).d("b", b).d("p1", R.p1).d("p2", R.p2).d("ratio_f4", R.ratio).d("epsilon", eps).i("depth", depth));
 	hash_param_u(R.family), hash_param(a), hash_param(b), hash_param(R.p1), hash_param(R.p2), hash_param(eps), hash_param_u(depth);
 	if(!(R.ratio <= 4.0) || !std::isfinite(I) || !(I > 0))
@@ -253,6 +258,7 @@ static void rough_case(Rng& rng, uint64_t)
 	double a = lo, b = hi;
 	if(rng.coin())
 		std::swap(a, b);
+	depth = flavour_depth(depth);
 	set_params(J().str("integrand", name).d("a", a).d("b", b).d("c", c).d("s", s).d("epsilon", eps).i("depth", depth));
 	hash_param_u(kind), hash_param(a), hash_param(b), hash_param(c), hash_param(s), hash_param(eps), hash_param_u(depth);
 	Run r = run(f, a, b, eps, depth);
